@@ -6,10 +6,10 @@ import CpModel.SessionStore
     <ram|file> <timeout> <D:0|1> <G: id,id,…|-> <op;op;…>
 
   G is the id source (`generate_id` draws, as numbered by the harness; beyond the script the source
-  yields 900000000+n).  Ops:
+  yields n+1, the number of the draw).  Ops:
     q/<cookie>/<hops>   cookie = n | i<id> | e<id>   hops = - | hop+hop+…
                         hop = r | w.<k>.<v> | k.<k> | c | g | d | x
-    a<d>   s   t<id>.<eof|unp|oth>
+    a<d>   s | s<id>,<id>,… (listing order of the files)   t<id>.<eof|unp|oth>
   Output: one item per op joined by `;`, item = `<out>@<listing>`,
     out     = R:<ok|400|500|div>:<cookie id|->:<0|1>:<reads>   |  done  |  aborted
     reads   = - | dict/dict/…      dict = ~ | k=v,k=v (sorted)
@@ -46,8 +46,13 @@ def parseCookie (s : String) : Option Cookie :=
   else if s.startsWith "e" then (s.drop 1).toString.toNat?.map .escaping
   else none
 
+/-- `s` or `s<id>,<id>,…`: the sweep, optionally with the order in which `os.listdir` yields the files -/
+def parseSweepOrder (s : String) : Option (List Nat) :=
+  if s == "s" then some [] else
+  if s.startsWith "s" then ((s.drop 1).toString.splitOn ",").mapM (·.toNat?) else none
+
 def parseOp (s : String) : Option Op :=
-  if s == "s" then some .sweep
+  if s == "s" || (s.startsWith "s" && (parseSweepOrder s).isSome) then some .sweep
   else if s.startsWith "a" then (s.drop 1).toString.toNat?.map .advance
   else if s.startsWith "t" then
     match (s.drop 1).toString.splitOn "." with
@@ -84,11 +89,16 @@ def showOut : Out → String
     let rd := if r.reads.isEmpty then "-" else "/".intercalate (r.reads.map showDict)
     s!"R:{showStatus r.status}:{ck}:{if r.expired then 1 else 0}:{rd}"
 
-def runShow (cfg : Cfg) : St → List Op → List String
+/-- arrange the store (a permutation) in the order the directory listing yields the files -/
+def reorder (s : Store) (ord : List Nat) : Store :=
+  let s := sortPairs s
+  let first := ord.filterMap fun i => (lookup s i).map fun r => (i, r)
+  first ++ s.filter fun p => !ord.contains p.1
+
+def runShow (cfg : Cfg) : St → List (Op × List Nat) → List String
   | _, [] => []
-  | st, o :: os =>
-    -- `os.listdir` order as arranged by the harness: ascending id (a permutation of the store)
-    let st := match o with | .sweep => { st with store := sortPairs st.store } | _ => st
+  | st, (o, ord) :: os =>
+    let st := match o with | .sweep => { st with store := reorder st.store ord } | _ => st
     let r := step cfg st o
     (showOut r.2 ++ "@" ++ showListing r.1.store) :: runShow cfg r.1 os
 
@@ -100,9 +110,11 @@ def step (line : String) : String :=
       let timeout ← t.toNat?
       let df ← (if d == "1" then some true else if d == "0" then some false else none)
       let script ← parseGen g
-      let opl ← (ops.splitOn ";").mapM parseOp
+      let opl ← (ops.splitOn ";").mapM fun t => do
+        let o ← parseOp t
+        pure (o, match o with | .sweep => (parseSweepOrder t).getD [] | _ => [])
       let cfg : Cfg := { file := file, timeout := timeout, deleteForgets := df,
-                         gen := fun n => script.getD n (900000000 + n) }
+                         gen := fun n => script.getD n (n + 1) }
       pure (";".intercalate (runShow cfg {} opl))
     r.getD "bad-op"
   | _ => "bad-op"
